@@ -141,12 +141,32 @@ def resolveUseLoop (byId : List (String × Node)) (scopeUid : Nat) : (fuel : Nat
       setRoot (Node.replaceUid cur u [r])
     resolveUseLoop byId scopeUid fuel
 
-/-- `_resolve_use(scope_el)`: elements are captured by id once, up front (`.//svg:*[@id]`, last wins) -/
+/-- ids referenced by the `use` elements in `descendant-or-self::svg:use` of `el` (`#fragment` only) -/
+def useTargets (el : Node) : List String :=
+  (el.elems.filter (fun n => n.tag == Node.svgTag "use")).filterMap (fun u =>
+    let r := (u.getAttr Node.xlinkHref).getD ""
+    if r.startsWith "#" then some (r.drop 1).toString else none)
+
+/-- does following use references from `node` come back to an id on the current path?
+    `fuel` bounds the depth (a repeat-free path has at most one entry per id) -/
+def useCycleFrom (byId : List (String × Node)) : (fuel : Nat) → List String → String → Bool
+  | 0, _, _ => true
+  | fuel + 1, path, node =>
+    if path.contains node then true
+    else match byId.lookup node with
+      | none => false
+      | some el => (useTargets el).any (useCycleFrom byId fuel (node :: path))
+
+/-- `_resolve_use(scope_el)`: elements are captured by id once, up front (`.//svg:*[@id]`, last wins);
+    circular use references reachable from the scope are rejected (ValueError); without cycles the
+    reference depth is below the number of ids, which bounds the re-scan loop -/
 def resolveUseIn (scopeUid : Nat) (fuel : Nat) : DocM Unit := do
   let root ← getRoot
-  let byId : List (String × Node) := (root.elems.drop 1).filterMap (fun n =>
-    if (Node.splitNs n.tag).1 == some svgNs then (n.getAttr "id").map (fun i => (i, n)) else none)
-  resolveUseLoop byId.reverse scopeUid fuel
+  let byId : List (String × Node) := ((root.elems.drop 1).filterMap (fun n =>
+    if (Node.splitNs n.tag).1 == some svgNs then (n.getAttr "id").map (fun i => (i, n)) else none)).reverse
+  let scope := (Node.findUid root scopeUid).getD root
+  if (useTargets scope).any (useCycleFrom byId (byId.length + 1) []) then fail .valueError
+  resolveUseLoop byId scopeUid (byId.length + 2 + fuel * 0)
 
 def resolveUse : DocM Unit := do
   updateEtree
@@ -210,7 +230,9 @@ def iterNestedSvgs (el : Node) : List Node :=
 
 /-- `_unnest_svg(svg, parent_width, parent_height)` → the nodes replacing the nested `svg`.
     Works on the current tree: inner nested svgs are swapped first. -/
-partial def unnestSvg (svgUid : Nat) (pw ph : Float) : DocM (List Node) := do
+def unnestSvg (svgUid : Nat) (pw ph : Float) : (fuel : Nat) → DocM (List Node)
+  | 0 => fail .recursionError
+  | fuel + 1 => do
   let root ← getRoot
   let svg ← match Node.findUid root svgUid with
     | some n => pure n
@@ -227,7 +249,7 @@ partial def unnestSvg (svgUid : Nat) (pw ph : Float) : DocM (List Node) := do
     | none => pure viewport
   -- first un-nest nested nested svgs (they are swapped into the tree one by one)
   for inner in iterNestedSvgs svg do
-    let repl ← unnestSvg inner.uid viewbox.w viewbox.h
+    let repl ← unnestSvg inner.uid viewbox.w viewbox.h fuel
     let cur ← getRoot
     match Node.parentOf inner.uid cur with
     | none => fail .valueError
@@ -271,7 +293,7 @@ def resolveNestedSvgs : DocM Bool := do
   | none => fail .valueError
   | some box =>
     for n in nested do
-      let repl ← unnestSvg n.uid box.w box.h
+      let repl ← unnestSvg n.uid box.w box.h 500
       let cur ← getRoot
       match Node.parentOf n.uid cur with
       | none => fail .valueError
